@@ -149,6 +149,15 @@ PROPS = {
                  quick=dict(shards=4, runs=150000), thorough=dict(shards=16, runs=4000000, max_total_time=240)),
         ],
     ),
+    "C01": dict(
+        level="exploration",
+        exhaustive_possible=False,
+        rule="cases are (table, operation) pairs: typed set / unchecked set / get on generated valid tables, judged by a flat reference model (accept/refuse prediction, reference "
+             "serialisation in the table's byte order, bit-identical read-back, storage unchanged on refusal); non-trivial = a refused set, a set exactly at a constraint bound, "
+             "a big-endian or callback-backed table, or a one-past-the-end handle; distinct by (table, handle, value, operation)",
+        assumptions=COMMON_ASSUME + ["areas always have a read callback; the unchecked variant only receives correctly typed values (the property's domain)"],
+        targets=[enum("enum", ["props/C01_enum.cpp"], qs=12, ts=16)],
+    ),
 }
 
 NOTE_COMMON = ("trusted: clang/ASan/UBSan, the harness and its reference model; the search is bounded (see evidence: tier bounds and counts); "
@@ -240,6 +249,14 @@ MANIFEST_TEXT = {
         level_text="All trees up to 5 (thorough 6) nodes in several renderings and all strings up to length 6 (7) over a 10-character alphabet are parsed through both entry points and "
                    "compared with a reference reader written from the grammar (maximal-munch tokens); allocations of sx.c are counted by renaming malloc/calloc/free at compile time, "
                    "so a leak is an exact per-case count; larger trees come from rapidcheck, arbitrary octets from a coverage-guided fuzzer.",
+        level_note=NOTE_COMMON,
+    ),
+    "C01": dict(
+        engine="enum (generated tables, exhaustive 16-bit values)",
+        technique="model-based testing on generated register tables: boundary/random values for all types, all 2^16 values for 16-bit registers, against a flat reference model with reference serialisers",
+        level_text="Thousands of valid tables of a small-scope family are generated (both byte orders, memory- and callback-backed areas, every constraint kind); each register is driven with "
+                   "values at type and constraint boundaries, all float classes and mistyped values through the checked and unchecked setter, and the storage is compared word for word with "
+                   "a reference serialisation. 16-bit registers are swept over all values on a subset of tables; wider types are sampled.",
         level_note=NOTE_COMMON,
     ),
 }
